@@ -103,6 +103,65 @@ def build_script(rng, chain, prog):
     return {"members": members, "steps": steps, "settle": 10}
 
 
+NEG_CHAINS = [[k] for k in KINDS] + [["cc", "twcchdr"], ["nackresp", "twcchdr"], ["twcchdr", "nackresp"], ["nackresp", "flexfec"],
+                                     ["flexfec", "nackresp"], ["cc", "nackresp", "twcchdr"], ["rtpfb", "twcchdr"], ["stats", "cc", "twcchdr"],
+                                     ["twccsend", "rfc8888", "nackgen", "rrecv"]]
+
+
+def negotiation_script(rng, chain):
+    """Streams that negotiated differently (transport-cc / RTX / FEC / NACK) side by side on one chain, bound one after the
+    other with traffic on the earlier streams after every later bind, an unbind and a re-bind with another negotiation."""
+    members = [member(rng, k, i) for i, k in enumerate(chain)]
+    cc_alone = "cc" in chain and "twcchdr" not in chain[chain.index("cc"):]       # (known finding C01.CcNeedsTwccExt otherwise)
+
+    def neg(twcc=None):
+        t = rng.choice([0, 7]) if twcc is None else twcc
+        return {"nack": rng.random() < 0.6, "twcc": 0 if cc_alone else t, "rtx": rng.random() < 0.5, "fec": rng.random() < 0.5}
+    first = neg()
+    cfg = {1: first, 3: neg(0 if first["twcc"] else 7), 5: neg()}
+    steps = [{"a": "bindw"}, {"a": "bindr"}, {"a": "bindm", "s": 2, "nack": True, "twcc": 7, "pli": True}]
+    wseq = {1: rng.choice([100, 65533]), 3: rng.choice([7, 30000]), 5: 65000}
+    ident = [0]
+
+    def write(s, n=1):
+        for _ in range(n):
+            ident[0] += 1
+            wseq[s] += 1
+            steps.append({"a": "wrtp", "s": s, "w": wseq[s] % 65536, "id": ident[0], "len": rng.choice([0, 1, 40, 1200]),
+                          "shape": rng.choice([0, 0, 1, 2, 3, 5, 6, 7]), "fail": False})
+
+    def nack(s):
+        ident[0] += 1
+        steps.append({"a": "rrtcp", "s": s, "kind": "nack", "nums": [wseq[s] % 65536, (wseq[s] - 1) % 65536], "id": ident[0], "fail": False})
+
+    def read():
+        ident[0] += 1
+        steps.append({"a": "rrtp", "s": 2, "w": (200 + ident[0]) % 65536, "id": ident[0], "len": 30, "shape": 0, "tw": 500 + ident[0],
+                      "fail": False})
+    steps.append(dict({"a": "bindl", "s": 1}, **cfg[1]))
+    write(1, 2)
+    read()
+    steps.append(dict({"a": "bindl", "s": 3}, **cfg[3]))
+    write(1)
+    write(3, 2)
+    nack(1)
+    steps.append(dict({"a": "bindl", "s": 5}, **cfg[5]))
+    for s in rng.sample([1, 3, 5], 3):
+        write(s)
+    nack(3)
+    read()
+    steps.append({"a": "unbindl", "s": 3})
+    write(1)
+    write(5)
+    steps.append(dict({"a": "bindl", "s": 3}, **neg(cfg[3]["twcc"] if rng.random() < 0.5 else None)))
+    write(3, 2)
+    write(1)
+    nack(5)
+    steps += [{"a": "wait", "ms": 3}, {"a": "unbindl", "s": 1}, {"a": "unbindl", "s": 3}, {"a": "unbindl", "s": 5},
+              {"a": "unbindm", "s": 2}, {"a": "close"}]
+    return {"members": members, "steps": steps, "settle": 10}
+
+
 def nontrivial(evs):
     app = any(e["a"] == "wire" and e.get("app") for e in evs)
     other = any((e["a"] == "wire" and not e.get("app")) or e.get("fail") for e in evs)
@@ -139,6 +198,9 @@ def run(ctx):
     elif len(scripts) > 4000:
         scripts = rng.sample(scripts, 4000)
     run_batch(ctx, scripts, "G-programs")
+    # (G) streams with different negotiation side by side, on every member alone and on the chains where members cooperate
+    reps = 1 if ctx.quick else 6
+    run_batch(ctx, [negotiation_script(rng, c) for c in NEG_CHAINS for _ in range(reps)], "G-negotiation")
     # the parse cache every member of a chain shares for one packet (attributes.go)
     vlib.model_check(ctx, "MC_Attributes.tla", "MC_Attributes.cfg", workers=2)
     seqs = vlib.generate(ctx, "Gen_Attributes.tla", vlib.cfg_variant(ctx, "Gen_Attributes.cfg", {"L": 4 if ctx.quick else 6}), workers=4)
